@@ -28,7 +28,7 @@ HANDLERS = {"reti": [0xD9], "ret": [0xC9], "nop_reti": [0x00, 0xD9], "ei_ret": [
 # STOP is a two-byte instruction whatever its second byte holds (0x00 by convention): the byte is skipped, never executed
 STOP_OPERANDS = [0x00, 0x00, 0x3C, 0x04, 0xFB, 0x76, 0xD9]
 
-def c08_scenario(sid, seq, ime, if0, ie0, breq, aie, handler, base=0x150, extra_steps=6):
+def c08_scenario(sid, seq, ime, if0, ie0, breq, aie, handler, base=0x150, extra_steps=6, devices=(), ext=()):
     code = []
     reti_returns = []
     for k, sym in enumerate(seq):
@@ -43,8 +43,9 @@ def c08_scenario(sid, seq, ime, if0, ie0, breq, aie, handler, base=0x150, extra_
         iw.append((sp + 2 * i, ret & 0xFF)); iw.append((sp + 2 * i + 1, ret >> 8))
     iw.append((0xFF0F, if0)); iw.append((0xFFFF, ie0))
     regs = cpu(a=aie, b=breq, d=0xFF, e=0xFF, h=0xFF, l=0x0F, sp=sp, pc=base)
+    iw += list(devices)
     # halted/stopped CPUs need update() calls to tick; allow some
-    return scenario(sid, chunks, regs, len(seq) + extra_steps, mode="update", ime=ime, init_writes=iw)
+    return scenario(sid, chunks, regs, len(seq) + extra_steps, mode="update", ime=ime, init_writes=iw, ext=ext)
 
 def c08_all(maxlen, rng):
     """Every sequence of length 1..maxlen over the alphabet, each with a deterministic rotation of
@@ -66,10 +67,22 @@ def c08_random(n, maxlen, rng, start_id=1000000):
     for i in range(n):
         ln = rng.randint(3, maxlen)
         seq = [rng.choice(ALPHABET) for _ in range(ln)]
+        extra = rng.randint(4, 30)
+        devices, ext = [], []
+        kind = i % 3
+        if kind == 1:
+            # a request that arrives from a device while the CPU is suspended: a fast timer about to overflow
+            devices = [(0xFF06, rng.choice([0xF0, 0xFE, 0x00])), (0xFF05, rng.choice([0xFA, 0xFE, 0xFF])), (0xFF07, rng.choice([5, 5, 6]))]
+            extra += 20
+        elif kind == 2:
+            # keys held (or pressed later) with their group selected: HALT / STOP suspend whatever the key lines show,
+            # and a line that falls during the suspension is a request like any other
+            devices = [(0xFF00, rng.choice([0x10, 0x20, 0x00]))]
+            ext = [(rng.choice([0, 0, rng.randrange(ln + extra)]), rng.choice(["press", "press", "release"]), rng.randrange(8)) for _ in range(rng.randint(1, 4))]
         out.append(c08_scenario(start_id + i, seq, rng.choice(["Disabled", "Enabled", "EnableNext"]),
-                                rng.choice([0, 1, 4, 0x1F, 0x10]), rng.choice([0, 4, 5, 0x1F]),
-                                rng.choice([0, 1, 4, 0x14, 0x1F]), rng.choice([0, 1, 4, 5, 0x1F]),
-                                rng.choice(list(HANDLERS)), extra_steps=rng.randint(4, 30)))
+                                rng.choice([0, 1, 4, 0x1F, 0x10]), rng.choice([0, 4, 5, 0x1F] if kind != 2 else [0x10, 0x1F, 0x14, 0]),
+                                rng.choice([0, 1, 4, 0x14, 0x1F]), rng.choice([0, 1, 4, 5, 0x1F] if kind != 2 else [0x10, 0x1F, 0x11]),
+                                rng.choice(list(HANDLERS)), extra_steps=extra, devices=devices, ext=ext))
     return out
 
 
@@ -173,7 +186,8 @@ def structured_program(sid, rng, mbc=None, steps=None):
             for _ in range(rng.randint(0, 5)): body += alu_op(rng)
             subs.append((lab, body + [rng.choice([0xC9, 0xC9, 0xC0, 0xC8]), 0xC9]))
         elif k == 3:                                                  # memory traffic through HL and the stack
-            a.emit(0x21); a.word(rng.choice([0xC000, 0xC800, 0xD000, 0xDFF8, 0xFF80, 0xFFA0, 0x8000, 0x9FF0, 0xFE00, 0xFE90, 0xA000, 0xBFF0, 0xE000]))
+            a.emit(0x21); a.word(rng.choice([0xC000, 0xC800, 0xD000, 0xDFF8, 0xFF80, 0xFFA0, 0x8000, 0x9FF0, 0xFE00, 0xFE90, 0xA000, 0xBFF0, 0xE000,
+                                             0xFF04, 0xFF41, 0xFF45, 0xFF02, 0xFF0F, 0xFF05]))     # registers where a store has an effect even if it changes nothing
             for _ in range(rng.randint(1, 6)):
                 a.emit(rng.choice([0x77, 0x22, 0x32, 0x7E, 0x2A, 0x3A, 0x34, 0x35, 0x36, 0x86, 0xAE, 0xBE, 0x46, 0x70]))
                 if a.b[-1] == 0x36: a.emit(rng.randrange(256))
@@ -268,6 +282,45 @@ def alu_safe_b(rng):
 
 def structured_programs(n, rng, start_id=2000000, mbc=None, steps=None):
     return [structured_program(start_id + i, rng, mbc=mbc, steps=steps) for i in range(n)]
+
+
+def jump_to_next_programs():
+    """C06: control transfers whose target is the address of the following instruction (taken or not they end up in the
+    same place, but not at the same cost): JP cc / CALL cc to pc+3, JR cc +0, RET cc returning to pc+1, for both outcomes."""
+    out = []
+    sid = 3200000
+    for op in (0xC2, 0xCA, 0xD2, 0xDA, 0xC3, 0xC4, 0xCC, 0xD4, 0xDC, 0xCD, 0x20, 0x28, 0x30, 0x38, 0x18, 0xC0, 0xC8, 0xD0, 0xD8, 0xC9):
+        for f in (0x00, 0x80, 0x10, 0x90):
+            for base in (0x0150, 0xC800):
+                n = 3 if op >= 0xC2 and op not in (0xC0, 0xC8, 0xD0, 0xD8, 0xC9) else (2 if op < 0x40 else 1)
+                nxt = base + n
+                code = [op] + ([nxt & 0xFF, nxt >> 8] if n == 3 else ([0x00] if n == 2 else []))
+                code += [0x00, 0x18, 0xFE]
+                iw = [(0xDFEE, nxt & 0xFF), (0xDFEF, nxt >> 8)]          # what a RET pops
+                if base >= 0x8000:
+                    iw += [(base + i, b) for i, b in enumerate(code)]
+                    chunks = [(0x100, [0x00])]
+                else:
+                    chunks = [(base, code)]
+                out.append(scenario(sid, chunks, cpu(pc=base, sp=0xDFEE, f=f), 2, cart=(0, 0, 2), init_writes=iw, romfill=0x00))
+                sid += 1
+    return out
+
+
+def serial_flood_programs():
+    """C11: hundreds of serial transfers in a row, with and without line feeds among them (whatever buffering the
+    device does, no byte count may take it out of bounds)."""
+    out = []
+    for i, (byte, count) in enumerate([(0x41, 0), (0x0A, 0), (0xFF, 0), (0x00, 200)]):
+        a = Asm(0x150)
+        a.emit(0x31, 0xF0, 0xDF, 0x06, count)              # LD SP ; LD B,count (0 = 256 rounds)
+        a.label("L")
+        a.emit(0x3E, byte, 0xE0, 0x01, 0x3E, 0x81, 0xE0, 0x02, 0x3E, byte ^ 0x21, 0xE0, 0x01, 0x3E, 0x80, 0xE0, 0x02)
+        a.emit(0x05); a.jr(0x20, "L")
+        a.label("E"); a.jr(0x18, "E")
+        out.append(scenario(3100000 + i, [(0x100, [0x00, 0xC3, 0x50, 0x01]), (a.org, a.resolve())], cpu(pc=0x100, sp=0xFFFE),
+                            2 + 2 * (count or 256) + 4, mode="block", cart=(0, 0, 2), romfill=0))
+    return out
 
 
 def edge_access_programs(rng):
@@ -498,10 +551,12 @@ def cache_history_scenario(sid, steps, cart, bankreg=0x2000, bankmap=(1, 2, 3)):
     for b in sorted(set(list(bankmap) + [1])):
         # a bank number that is a multiple of the bank count selects the image's first 16 KiB at 0x4000 (a mirror of bank 0)
         phys = (b % nbanks) * 0x4000
-        chunks.append((phys + (HI_BLOCKS[0] - 0x4000), [0x3E, b, 0x0E, 0, 0xC9]))
+        # (where several of the bank numbers name the same 16 KiB -- a two-bank image -- the code can only say which 16 KiB it is)
+        who = b if len({x % nbanks for x in set(list(bankmap) + [1])}) == len(set(list(bankmap) + [1])) else b % nbanks
+        chunks.append((phys + (HI_BLOCKS[0] - 0x4000), [0x3E, who, 0x0E, 0, 0xC9]))
         # high block 1: LD A,b ; LD C,1 ; DEC D ; JR NZ,start ; RET  -- a block that ends by jumping to its own start
-        chunks.append((phys + (HI_BLOCKS[1] - 0x4000), [0x3E, b, 0x0E, 1, 0x15, 0x20, 0xF9, 0xC9]))
-        chunks.append((phys + 0x3FF0, [b]))
+        chunks.append((phys + (HI_BLOCKS[1] - 0x4000), [0x3E, who, 0x0E, 1, 0x15, 0x20, 0xF9, 0xC9]))
+        chunks.append((phys + 0x3FF0, [who]))
     nsteps = 3 + sum(1 if x < 3 else (2 if x == 3 or x == 4 else (4 if x == 5 else 3)) for x in steps) + 2
     return scenario(sid, chunks, cpu(pc=0x100, sp=0xFFFE), nsteps, mode="block", cart=cart)
 
@@ -597,8 +652,13 @@ def serial_program(sid, rng, nwrites=None, in_ram=False):
     for _ in range(n):
         reg = rng.choice([1, 2, 2, 2])
         v = rng.choice([0x80, 0x81, 0xFF, 0x00, 0x01, 0x7F]) if (reg == 2 and rng.randrange(3)) else rng.randrange(256)
-        k = rng.randrange(7)
-        if k == 6:
+        k = rng.randrange(8)
+        if k == 7:
+            # read-modify-write instructions on SC / SB (they read 0xFF): SET / RES / INC / DEC / shifts through (HL)
+            t.emit(0x21, reg, 0xFF)
+            rmw = rng.choice([[0xCB, 0xFE], [0xCB, 0xC6], [0xCB, 0x86], [0xCB, 0xBE], [0x34], [0x35], [0xCB, 0x3E], [0xCB, 0x26], [0xCB, 0x36]])
+            t.emit(*rmw)
+        elif k == 6:
             w = rng.randrange(65536)                                              # LD (0xFF01),SP: SB := low, then SC := high
             t.emit(0x31, w & 0xFF, w >> 8, 0x08, 0x01, 0xFF, 0x31, 0xF0, 0xDF)
         elif k == 0: t.emit(0x3E, v, 0xE0, reg)                                   # LD A,v ; LDH (reg),A
@@ -725,6 +785,15 @@ def scene(sid, rng, kind="random"):
         sc["lcdc"] |= 0x02
         for n in range(40):
             obj(n, 16 + 4 * n % 140, 8 + (7 * n) % 150, rng.randrange(256), rng.choice([0x80, 0x00, 0x90, 0x10, 0xE0, 0x60]))
+    elif kind == "palettes":
+        # palette values a cache of decoded shades could get wrong: 0x00 (all white) as the first value ever written,
+        # all-equal and identity / reversed maps; objects visible so that both object palettes are used
+        sc["lcdc"] |= 0x02
+        sc["bgp"], sc["obp0"], sc["obp1"] = [rng.choice([0x00, 0x00, 0xFF, 0xE4, 0x1B, 0x55, 0xAA]) for _ in range(3)]
+        if sid % 8 == 3:      # (the fourth scene of a run is the first one its core renders: all three start at 0x00)
+            sc["bgp"] = sc["obp0"] = sc["obp1"] = 0x00
+        for n in range(40):
+            obj(n, 16 + (9 * n) % 140, 8 + (13 * n) % 150, rng.randrange(256), rng.choice([0x00, 0x10, 0x80, 0x90]))
     elif kind == "scroll":
         sc["lcdc"] &= ~0x22
         sc["scx"] = rng.choice([0, 1, 7, 8, 95, 96, 97, 248, 255])
@@ -733,7 +802,7 @@ def scene(sid, rng, kind="random"):
     return sc
 
 def scenes(n, rng, start_id=8000000):
-    kinds = ["random", "window", "crowded", "tall", "priority", "scroll"]
+    kinds = ["random", "window", "crowded", "palettes", "tall", "priority", "scroll", "palettes"]
     return [scene(start_id + i, rng, kinds[i % len(kinds)]) for i in range(n)]
 
 
